@@ -414,6 +414,12 @@ MERGE_CAUSES = {
     "lhs-missing-file": (None, MERGE_RHS_OK, [], True),
     "mergeat-unmatched": (MERGE_LHS_OK, MERGE_RHS_OK, ["-m", "/a/b/deeper/still"], False),
     "mergeat-unmatched-search": ("s:\n  - name: web\n", "port: 1\n", ["-m", "/s[name=db]"], True),
+    # a result that cannot be written in the requested format (JSON has no date / sequence keys): found out when the
+    # output is prepared, i.e. before the destination is opened (flow-style roots are dumped as JSON without -D, too)
+    "result-not-json-date-key(flow-root)": ("{2021-03-04: a, b: 1}\n", "{c: 2}\n", ["-D", "json"], False),
+    "result-not-json-date-key(flow-root,auto-format)": ("{2021-03-04: a, b: 1}\n", "{c: 2}\n", [], False),
+    "result-not-json-date-key(block-root)": ("2021-03-04: a\nb: 1\n", "c: 2\n", ["-D", "json"], False),
+    "result-not-json-complex-key(flow-root)": ("{? [a, b] : 1, c: 2}\n", "{d: 3}\n", ["-D", "json"], False),
     "args-unreadable-config": (MERGE_LHS_OK, MERGE_RHS_OK, ["-c", "@D/noconfig.ini"], True),
     "args-bad-choice": (MERGE_LHS_OK, MERGE_RHS_OK, ["-A", "bogus"], True),
 }
